@@ -928,4 +928,108 @@ theorem satisfy_keeps_share_tree_closed {E : Env H} {cfg : Cfg} (hstrict : Stric
   · rw [(stageCtHashes_frame E cfg pick segnum v nd0).2.2]; exact h0
   · rw [(stageData_frame E cfg pick shnum segnum v nd0).1]; exact h0
 
+/-- a `set_hashes` call never changes the length of the tree -/
+theorem setHashes_length {E : Env H} {cfg : Cfg} (hstrict : StrictPresence E.ops cfg) {t : Tree H}
+    {pick : List Nat → Nat} {first : Nat} {hashes leaves : List (Nat × H)} {o : Outcome} {t' : Tree H}
+    (hrange : ∀ new, mergeLeaves first hashes leaves = some new → ∀ e ∈ new, e.1 < t.length)
+    (hs : setHashes E.ops cfg pick first t hashes leaves = (o, t')) : t'.length = t.length := by
+  by_cases ho : o = .ok
+  · subst ho
+    obtain ⟨new, st, _, hres, e⟩ := setHashes_ok hs
+    have := tryBody_reach (E.ops.withCfg cfg) pick t new
+    rw [hres] at this
+    rw [← e]
+    exact this.length_eq
+  · rw [setHashes_fail_same hstrict hrange hs ho]
+
+/-- `_satisfy_share_hash_tree` touches only the share hash tree -/
+theorem stageShareTree_frame (E : Env H) (cfg : Cfg) (pick : List Nat → Nat) (cap : Cap H) (shnum : Nat) (v : View H)
+    (nd : Node H) :
+    (stageShareTree E cfg pick cap shnum v nd).2.known = nd.known ∧
+    (stageShareTree E cfg pick cap shnum v nd).2.ctTree = nd.ctTree ∧
+    (stageShareTree E cfg pick cap shnum v nd).2.blockTrees = nd.blockTrees := by
+  unfold stageShareTree
+  dsimp only
+  repeat' split
+  all_goals exact ⟨rfl, rfl, rfl⟩
+
+/-- the crypttext hash tree of a node: closed, sibling-closed, and either not installed yet or of odd length -/
+def CtGood (nd : Node H) : Prop :=
+  Closed nd.ctTree ∧ SibClosed nd.ctTree ∧ (nd.ctTree.length % 2 = 1 ∨ nd.ctTree = [])
+
+/-- `_satisfy_ciphertext_hash_tree` keeps `CtGood` -/
+theorem stageCtHashes_keeps_ctGood {E : Env H} {cfg : Cfg} (hstrict : StrictPresence E.ops cfg)
+    (pick : List Nat → Nat) (segnum : Nat) (v : View H) (nd : Node H) (h : CtGood nd) :
+    CtGood (stageCtHashes E cfg pick segnum v nd).2 := by
+  obtain ⟨hc, hsc, hlen⟩ := h
+  cases hlen with
+  | inl hodd =>
+    refine ⟨stageCtHashes_keeps_closed hstrict pick segnum v nd hodd hc,
+      stageCtHashes_keeps_sibClosed hstrict pick segnum v nd hodd hsc, Or.inl ?_⟩
+    unfold stageCtHashes
+    cases hk : nd.known with
+    | none => simp only; exact hodd
+    | some us =>
+      obtain ⟨u, sz⟩ := us
+      simp only
+      cases hn : neededHashes? nd.ctTree (firstLeafNum sz.numSegs) segnum true with
+      | none => simp only; exact hodd
+      | some needed =>
+        cases needed with
+        | nil => simp only; exact hodd
+        | cons a rest =>
+          simp only
+          cases hcl : collect (a :: rest) v.ctHashes with
+          | none => simp only; exact hodd
+          | some hs =>
+            simp only
+            have hrange : ∀ new, mergeLeaves (firstLeafNum sz.numSegs) hs [] = some new →
+                ∀ e ∈ new, e.1 < nd.ctTree.length := by
+              intro new hm e he
+              have : new = hs := by simp [mergeLeaves] at hm; exact hm.symm
+              subst this
+              exact neededHashes?_lt hodd hn _ (collect_keys hcl e he)
+            cases hsr : setHashes E.ops cfg pick (firstLeafNum sz.numSegs) nd.ctTree hs [] with
+            | mk o t' =>
+              have := setHashes_length hstrict hrange hsr
+              cases o <;> (simp only; rw [this]; exact hodd)
+  | inr hnil =>
+    have : stageCtHashes E cfg pick segnum v nd = ((stageCtHashes E cfg pick segnum v nd).1, nd) := by
+      unfold stageCtHashes
+      cases hk : nd.known with
+      | none => rfl
+      | some us =>
+        obtain ⟨u, sz⟩ := us
+        simp only
+        have : neededHashes? nd.ctTree (firstLeafNum sz.numSegs) segnum true = none := by
+          rw [hnil]; unfold neededHashes? completeNeededHashes? neededFor?; simp
+        rw [this]
+    rw [this]
+    exact ⟨hc, hsc, Or.inr hnil⟩
+
+/-- **one whole pass keeps the crypttext hash tree closed, sibling-closed and of odd length** -/
+theorem satisfy_keeps_ctGood {E : Env H} {cfg : Cfg} (hstrict : StrictPresence E.ops cfg)
+    (pick : List Nat → Nat) (cap : Cap H) (nd : Node H) (shnum segnum : Nat) (v : View H) (h : CtGood nd) :
+    CtGood (satisfy E cfg pick cap nd shnum segnum v).2 := by
+  unfold satisfy
+  apply runStages_inv (P := CtGood) _ _ nd h
+  intro f hf nd0 h0
+  unfold stages at hf
+  simp only [List.mem_cons, List.not_mem_nil, or_false] at hf
+  rcases hf with e | e | e | e | e | e | e | e <;> subst e
+  · dsimp only; split <;> exact h0
+  · unfold stageUEB
+    repeat' split
+    all_goals first
+      | exact h0
+      | exact ⟨seed_closed _ _, seed_keeps_sibClosed (newTree_sibClosed _) _, Or.inl (by
+          rename_i sz _; rw [seed_length]; have := roundupPow2_pos sz.numSegs; omega)⟩
+  · unfold stageSegnum; repeat' split
+    all_goals exact h0
+  · unfold CtGood; rw [(stageShareTree_frame E cfg pick cap shnum v nd0).2.1]; exact h0
+  · unfold CtGood; rw [(stageBlockRoot_frame E cfg pick cap shnum nd0).2]; exact h0
+  · unfold CtGood; rw [(stageBlockHashes_frame E cfg pick shnum segnum v nd0).2.1]; exact h0
+  · exact stageCtHashes_keeps_ctGood hstrict pick segnum v nd0 h0
+  · unfold CtGood; rw [(stageData_frame E cfg pick shnum segnum v nd0).2]; exact h0
+
 end Tahoe.Integrity
